@@ -105,3 +105,19 @@ impl Display for NCalls {
         }
     }
 }
+
+#[cfg(unimock_verif)]
+impl CallCounter {
+    /// (actual count, minimum, exactness code)
+    pub(crate) fn verif_parts(&self) -> (usize, usize, u8) {
+        (
+            self.actual_count.load(core::sync::atomic::Ordering::SeqCst),
+            self.expectation.minimum,
+            match self.expectation.exactness {
+                Exactness::Exact => 0,
+                Exactness::AtLeast => 1,
+                Exactness::AtLeastPlusOne => 2,
+            },
+        )
+    }
+}
